@@ -30,7 +30,11 @@ RULE = ("random commit graphs (6-16 commits, 8% extra roots, 30% merges incl. oc
         "unusual spellings (leading zeros, branch parts that only look like a release line); commit times anywhere in 0..30 days, not tied to the graph (heads older than the "
         "builds of lower-sorted branches by more than a day in ~25% of the cases; the window's edge values; 5% outside the "
         "window: compared with the model, not judged); exhaustive graphs of <=4 commits x 2 branches in thorough. "
-        "every history is reported twice by the same ReposCollection (the second answer must equal the first). "
+        "every history is reported twice by the same ReposCollection (the second answer must equal the first); 400 sequences "
+        "report - refs move (heads change, a ref appears or goes) - report again on the SAME collection object, with no sync(), "
+        "a sync() whose fetch raises, or a successful one: every report must be right for the repository as it is then; about "
+        "half of the refs of the git stand-in are loose (iter_refs yields None, get_ref_commit is asked); the version file of "
+        "master-style builds is bumped between commits. "
         "non-trivial = at least one matching commit reachable from a release/master head; distinct by protocol line")
 TRUSTED = ["tests/mock_git.py (synthetic git objects fed to the real ak.ghist code)",
            "order of remote.refs (sorted by name, as mock_git and GitPython list them) — decides ties of equal sort keys only",
@@ -90,8 +94,48 @@ class SecondCallDiffers(Exception):
     pass
 
 
+def run_seq(hs, sync):
+    """reports on ONE ReposCollection while the repository changes underneath (refs moved by a fetch of another process):
+    before every report but the first the git stand-in gets the next history; `sync`: "none" - nothing else happens,
+    "fail" - ProjectRepo.sync() is called and the fetch raises, "ok" - the fetch succeeds"""
+    k = G.repo_classes()
+    from ak.ghist import ReposCollection
+    from tests.mock_git import _MockedGitRemote
+
+    class Remote(_MockedGitRemote):
+        def fetch(self):
+            if sync == "fail":
+                raise OSError("remote not reachable")
+    repo = G.mock_repo(hs[0], "r", hs[0].get("text", TEXT))
+    pr = k["StdTestRepo"]("r", repo, G.REMOTE)
+    rc = ReposCollection({"r": pr})
+    outs = []
+    for j, h in enumerate(hs):
+        text = h.get("text", TEXT)
+        if j > 0:
+            nxt = G.mock_repo(h, "r", text)
+            repo.__dict__.clear()
+            repo.__dict__.update(nxt.__dict__)
+            if sync != "none":
+                repo.remotes = {G.REMOTE: Remote(repo, G.REMOTE)}
+                repo.working_dir = "/nowhere/r"
+                ok = pr.sync()
+                if ok != (sync == "ok"):
+                    raise SecondCallDiffers("sync() returned %r" % ok)
+        data = rc.make_reports_data(text)
+        outs.append(_report_text(data[0][1]))
+    return outs
+
+
 def impl(case):
     out = []
+    seq = case.get("meta", {}).get("seq")
+    if seq:
+        try:
+            hs = [G.dec_hist(*line.split()[1:]) for line in case["lines"]]
+            return G.with_timeout(2 * len(hs), run_seq, hs, seq)
+        except Exception as e:
+            return ["err " + type(e).__name__] * len(case["lines"])
     for line in case["lines"]:
         op, *args = line.split()
         if op != "rep":
@@ -386,7 +430,7 @@ def gen_hist(rng, n, nbr, exotic=False, prefix=False, times=None, width=False, t
                 elif style < 0.9:
                     tags.append(special_bn(rng, nb))      # a component equal or next to the pseudo builds' 9999 / 8888
                 else:
-                    tags.append([77, 3, 100 + nb, 100 + nb])          # build_N_master_success + VERSION file
+                    tags.append([77, 3 + i % 2, 100 + nb, 100 + nb])  # build_N_master_success + VERSION file (bumped now and then)
             # one VERSION file per commit, one commit per build number
             ms = [t for t in tags if t[0] >= G.MASTER_STYLE_FROM]
             tags = [t for t in tags if t[0] < G.MASTER_STYLE_FROM or t[:2] == ms[0][:2]]
@@ -426,6 +470,23 @@ def mk_case(h, kind, noise=None):
     return {"lines": ["rep " + G.enc_hist(h)], "meta": {"kind": kind}}
 
 
+def mk_seq_case(rng, h, sync):
+    """two reports on the same collection object; in between the heads move (and a ref may appear or go)"""
+    import copy
+    h2 = copy.deepcopy(h)
+    n = len(h2["commits"])
+    for r in h2["refs"]:
+        if rng.random() < 0.7:
+            r[1] = rng.randrange(n)
+    if rng.random() < 0.3 and len(h2["refs"]) > 1:
+        h2["refs"].pop(rng.randrange(len(h2["refs"])))
+    elif rng.random() < 0.3:
+        free = [nm for nm in MAIN_NAMES if nm not in [r[0] for r in h2["refs"]]]
+        if free:
+            h2["refs"].append([rng.choice(free), rng.randrange(n)])
+    return {"lines": ["rep " + G.enc_hist(h), "rep " + G.enc_hist(h2)], "meta": {"kind": "refs-move-between-reports", "seq": sync}}
+
+
 def small_hists(nmax, names=("master", "release/1.1")):
     """every graph of <= nmax commits (<=2 parents, both orders), every tag/match placement, every pair of heads"""
     def shapes(n):
@@ -457,6 +518,8 @@ def gen_cases(rng, tier):
         yield mk_case(gen_hist(rng, 3 + k % 9, 2 + k % 4, prefix=True), "prefix-names")
     for k in range(500 if tier == "quick" else 8000):
         yield mk_case(gen_hist(rng, 3 + k % 9, 2 + k % 3, width=True), "width-names")
+    for k in range(400 if tier == "quick" else 6000):
+        yield mk_seq_case(rng, gen_hist(rng, 3 + k % 8, 1 + k % 4), ["none", "fail", "ok"][k % 3])
     for k in range(100 if tier == "quick" else 2000):
         yield mk_case(gen_hist(rng, 17 + k % 14, 1 + k % 5), "bigger")
     if tier == "thorough":
@@ -500,6 +563,11 @@ def corpus():
 
 
 def shrink(case):
+    if len(case["lines"]) > 1:
+        # a sequence on one object: try the reports alone first (then it is not about the sequence)
+        for l in case["lines"]:
+            yield {"lines": [l], "meta": {"kind": case.get("meta", {}).get("kind", "?")}}
+        return
     line = case["lines"][0]
     op, *args = line.split()
     h = G.dec_hist(*args)
